@@ -90,6 +90,24 @@ def expected_binary(op, ta, tb):
     return None
 
 
+def required_binary(op, ta, tb):
+    """Kinds that MUST be among the possible results (an over-approximation that does not even contain
+    the error kind means the documented error can never be reported)."""
+    if (ta, tb) == ("Int", "Int") and op in ("+", "-", "*", "/", "%", "^", "<<", ">>"):
+        return {"Int", "Error"}
+    if (ta, tb) == ("Float", "Int") and op == "^":
+        return {"Float", "Error"}
+    return set()
+
+
+def required_unary(op, t):
+    if t == "Int" and op in ("fact", "abs", "-"):
+        return {"Int", "Error"}
+    if t == "Float" and op == "to_int":
+        return {"Int", "Error"}
+    return set()
+
+
 def expected_unary(op, t):
     if t == "Error":
         return {"Error"}
@@ -200,9 +218,15 @@ def run(ctx):
                         chk.unrecognised("R16.1", "bin:%s:%s,%s" % (r, ta, tb), "; ".join(probs[:2]), ent["loc"])
                         bad = True
                         continue
+                    req = required_binary(r, ta, tb)
                     if exp is not None and not (tags and tags <= exp):
                         chk.violation("R16.1", "bin:%s:%s,%s" % (r, ta, tb),
                                       "`%s %s %s` can yield kind(s) %s, documented: %s" % (ta, r, tb, sorted(tags), sorted(exp)), ent["loc"])
+                        bad = True
+                    elif not probs and not req <= tags:
+                        chk.violation("R16.1", "bin:%s:%s,%s:missing" % (r, ta, tb),
+                                      "`%s %s %s` can only yield kind(s) %s: the documented %s outcome (overflow / out-of-range reported as an error value) is unreachable" % (
+                                          ta, r, tb, sorted(tags), sorted(req - tags)), ent["loc"])
                         bad = True
                     elif ncases % 97 == 0:
                         chk.sample({"op": r, "operands": [ta, tb], "result_kinds": sorted(tags), "documented": sorted(exp) if exp else None})
@@ -226,8 +250,13 @@ def run(ctx):
                     chk.unrecognised("R16.1", "un:%s:%s" % (r, t), "; ".join(probs[:2]), ent["loc"])
                     bad = True
                     continue
+                req = required_unary(r, t)
                 if exp is not None and not (tags and tags <= exp):
                     chk.violation("R16.1", "un:%s:%s" % (r, t), "`%s(%s)` can yield kind(s) %s, documented: %s" % (r, t, sorted(tags), sorted(exp)), ent["loc"])
+                    bad = True
+                elif not probs and not req <= tags:
+                    chk.violation("R16.1", "un:%s:%s:missing" % (r, t), "`%s(%s)` can only yield kind(s) %s: the documented %s outcome is unreachable" % (
+                        r, t, sorted(tags), sorted(req - tags)), ent["loc"])
                     bad = True
             if not bad:
                 chk.ok("R16.1", "unary %s: 6 kinds" % r, "", ent["loc"])
@@ -270,6 +299,44 @@ def run(ctx):
                 chk.ok("R16.2", name, ", ".join(show(x)[:40] for x in res[0]), ents[op]["loc"])
             else:
                 chk.violation("R16.2", name, "%s(%s, %s) returns %s" % (op, show(a), show(b), [show(x)[:60] for x in res[0]]), ents[op]["loc"])
+
+    # ---- R16.6 cross-kind comparison structure
+    chk.rule("R16.6", "Val equality / ordering: same-kind operands compare their payloads; int vs float compares in float after promoting the int (both orders); every other kind pair is false / unordered")
+    import re as _re
+    for trait, meth, same_fn, other in (("std::cmp::PartialEq", "eq", "std::cmp::PartialEq::eq", "false"),
+                                         ("std::cmp::PartialOrd", "partial_cmp", "std::cmp::PartialOrd::partial_cmp", "None")):
+        bs = fb.find_bodies(lambda b, trait=trait, meth=meth: b["kind"] == "AssocFn" and b.get("name") == meth and b.get("impl_trait_path") == trait
+                            and (b.get("impl_self_kind") or {}).get("path", "").endswith(VAL))
+        if len(bs) != 1:
+            chk.violation("R16.6", "anchor:%s" % meth, "impl %s for Val not found" % trait)
+            continue
+        ncmp = 0
+        good = True
+        for ta in TAGS:
+            for tb in TAGS:
+                ps = Interp(fb, _Inline()).run(bs[0], [val_of(ta, "a"), val_of(tb, "b")])
+                ps = [p for p in ps if p.status != "unreachable"]
+                ncmp += 1
+                if len(ps) != 1 or ps[0].status != "return":
+                    chk.unrecognised("R16.6", "%s:%s,%s" % (meth, ta, tb), "comparison is not straight-line for this kind pair", loc(bs[0]["span"]))
+                    good = False
+                    continue
+                s_ = show(ps[0].result)
+                if ta == tb and ta in ("Float", "Int") or (ta, tb) == ("Bool", "Bool") and meth == "eq":
+                    want = r"^%s\(a, b\)$" % _re.escape(same_fn)
+                elif (ta, tb) == ("Float", "Int"):
+                    want = r"^%s\(a, num::NumCast::from\(b\)\)$" % _re.escape(same_fn)
+                elif (ta, tb) == ("Int", "Float"):
+                    want = r"^%s\(num::NumCast::from\(a\), b\)$" % _re.escape(same_fn)
+                else:
+                    want = r"^false$|^bool:0$" if other == "false" else r"^Option::None$"
+                if _re.match(want, s_):
+                    continue
+                good = False
+                chk.violation("R16.6", "%s:%s,%s" % (meth, ta, tb), "Val::%s for (%s, %s) computes %s; documented: %s" % (
+                    meth, ta, tb, s_[:120], "payload comparison" if ta == tb else ("comparison in float after promoting the int" if {ta, tb} == {"Int", "Float"} else other)), loc(bs[0]["span"]))
+        if good:
+            chk.ok("R16.6", "Val::%s: %d kind pairs" % (meth, ncmp), "", loc(bs[0]["span"]))
 
     # ---- R16.3 never wrapped
     classes = json.load(open(c17.AUDIT))["val"]
